@@ -639,6 +639,10 @@ func runOnce(out *vh.Out, rng *vh.Rng, runNo int, mode string) {
 		panic(err)
 	}
 	n.supp = gpbft.SupplementalData{PowerTable: nextCid}
+	// non-zero commitments: the decision's aggregate covers them, so a certificate that loses them does not verify
+	for i := range n.supp.Commitments {
+		n.supp.Commitments[i] = byte(rng.Intn(256))
+	}
 
 	// faulty set: strictly less than a third of scaled power (async/byz mode only)
 	faulty := map[int]bool{}
